@@ -13,6 +13,13 @@
    transcription, a digest compared with the same image recognised alone) is validated by TLC against LineBatcher_Trace.
    Strict = TRUE (design conformance) first; what is rejected there is re-validated with Strict = FALSE (property-level
    acceptance): rejected again = VIOLATION, accepted = MODEL-DRIFT.
+3. History (sessions(), harness/lb_common.py run_session): the statement makes a result a function of the image at that
+   position (and of the engine asked), so nothing done before may show in it.  A session is a sequence of process_lines
+   calls in ONE process on long-lived engine objects - the provenance stub engine (a narrower list after a wider one of the
+   same batch shapes, a call that fails half-way in between, a list object handed in again) and several real
+   PytorchEngineLineOCR objects around a TorchScript stub network (alphabets of equal and of different size, one of more
+   than 1024 symbols, one alphabet shared by two engines, engines asked alternately).  Every call is one trace of
+   LineBatcher_Trace (kinds "lb" / "pt"); the history is no input of any clause there.
 """
 import itertools
 
@@ -113,6 +120,124 @@ def judge_alias(ctx, b, cases, traces, pad):
                       "%s; widths %s positions->objects %s batch size %d" % (what, cases[i]["w"], cases[i]["alias"], cases[i]["bs"]))
 
 
+# ------------------------------------------------------------------------------------------------ history
+PT_WIDTHS = [1, 3, 8, 9, 33, 120, 448, 500]      # 500 is beyond the engine maximum of a batch-size-1 engine (truncated at 480)
+PT_ENGINES = [{"type": "pt", "bs": 2, "alpha": 1, "nsym": 10}, {"type": "pt", "bs": 1, "alpha": 2, "nsym": 10},
+              {"type": "pt", "bs": 16, "alpha": 3, "nsym": 1300}, {"type": "pt", "bs": 3, "alpha": 4, "nsym": 10},
+              {"type": "pt", "bs": 16, "alpha": 1, "nsym": 10}, {"type": "pt", "bs": 2, "alpha": 5, "nsym": 7},
+              {"type": "pt", "bs": 2, "alpha": 6, "nsym": 1300}]
+LB_ENGINES = [{"type": "lb", "bs": 1}, {"type": "lb", "bs": 2}, {"type": "lb", "bs": 16}]
+
+
+def sessions(ctx, b, quick=True):
+    """sequences of calls on long-lived engines; widths of the "lb" calls come from the bounds entry b"""
+    M = lambda name: dict(MODES[name])
+    C = lambda e, w, m="sparse", fail=0: {"e": e, "w": list(w), "mode": M(m), "fail": fail}
+    out = []
+    # provenance engine: the same engine object serves page after page
+    out.append({"engines": LB_ENGINES, "calls": [C(0, [500]), C(0, [481]), C(0, [481, 33, 448], "dense-tight"), C(0, [448, 33, 1], fail=1),
+                                                  C(0, [33]), C(0, [1], "nolog"), C(0, [481, 33, 448], "dense-tight")]})
+    out.append({"engines": LB_ENGINES, "calls": [C(1, [448, 448]), C(1, [33, 1]), C(1, [448, 33], "dense"), C(1, [33, 33], "dense", fail=1),
+                                                  C(2, [3841, 500, 481]), C(2, [448, 33, 1]), C(1, [1, 1]), C(2, [8000], "nolog"),
+                                                  C(2, [481, 448, 33])]})
+    out.append({"engines": LB_ENGINES, "calls": [C(2, [500, 500, 500], "dense"), C(2, [481, 33, 1], "dense"), C(2, [448, 448, 448], "nolog"),
+                                                  C(2, [33, 33, 33], "nolog"), C(2, [1, 1, 1], "dense", fail=1), C(2, [], "sparse"),
+                                                  C(2, [481, 33, 1], "dense")]})
+    # real PytorchEngineLineOCR objects with different alphabets, asked alternately
+    ws = [[33, 120, 9], [448, 1, 33], [8, 500, 3], [120, 120], [9], [500, 448, 120]]
+    out.append({"engines": PT_ENGINES, "calls": [C(0, ws[0]), C(0, ws[0][::-1]), C(1, ws[0]), C(0, ws[0]), C(1, ws[2], "nolog"),
+                                                  C(2, ws[1], "dense-tight"), C(0, ws[1], "dense-tight"), C(4, ws[3]), C(3, ws[3]),
+                                                  C(1, ws[4], fail=1), C(0, ws[5])]})
+    out.append({"engines": PT_ENGINES, "calls": [C(2, ws[5]), C(6, ws[5]), C(2, ws[5]), C(5, ws[0], "dense"), C(3, ws[0], "dense"),
+                                                  C(5, ws[0], "dense"), C(6, ws[4], "nolog", fail=1), C(2, ws[4], "nolog"), C(1, ws[1])]})
+    out.append({"engines": PT_ENGINES, "calls": [C(1, ws[2]), C(3, ws[2]), C(0, ws[2]), C(4, ws[2]), C(1, ws[2], "dense-tight"),
+                                                  C(3, [], "sparse"), C(0, ws[1], "nolog"), C(3, ws[1], "sparse-tight", fail=1)]})
+    # scale: lists of more than 255 / more than 1024 lines (positions beyond any 8- or 10-bit index), alphabet of 1300 symbols;
+    # TLC evaluates PtLineOK for every one of these positions (no oracle value is pre-computed in Python)
+    big = [ctx.rng.choice([1, 3, 8, 9, 33, 33, 33]) for _ in range(1100)]
+    big[7], big[300], big[1000] = 120, 448, 120
+    out.append({"engines": PT_ENGINES, "calls": [C(2, ws[0]), C(2, big, "dense"), C(0, big[:300]), C(1, big[250:520], "nolog"), C(2, ws[0])]})
+    # sampled sessions
+    names = sorted(MODES)
+    for k in range(6 if quick else 30):
+        pt = k % 2 == 0
+        engs = PT_ENGINES if pt else LB_ENGINES
+        pool = PT_WIDTHS if pt else b["widths"]
+        calls = []
+        for _ in range(ctx.rng.randint(4, 8)):
+            n = ctx.rng.choice([1, 2, 3, 3, 4])
+            calls.append(C(ctx.rng.randrange(len(engs)), [ctx.rng.choice(pool) for _ in range(n)], ctx.rng.choice(names),
+                           fail=int(ctx.rng.random() < 0.15)))
+        out.append({"engines": engs, "calls": calls})
+    return out
+
+
+def _fresh(func, items, procs=4):
+    """every item in a process of its own, forked from this one (a session starts from the state of a freshly started program)"""
+    import multiprocessing as mp
+    with mp.get_context("fork").Pool(min(procs, max(1, len(items))), maxtasksperchild=1) as pool:
+        return pool.map(func, items, chunksize=1)
+
+
+def judge_sessions(ctx, b, sess, pad):
+    """one trace per call; judged like any other execution (strict, then property level); the replay case is the whole session"""
+    if not sess:
+        return
+    per = _fresh(L.run_session, sess)
+    cases, traces = [], []
+    for k, (s, trs) in enumerate(zip(sess, per)):
+        for j, tr in enumerate(trs):
+            cases.append({"session": s, "call": j, "route": "session", "bounds": b["name"]})
+            traces.append(tr)
+    strict = constants(b, pad=pad, Strict=True)
+    loose = constants(b, pad=pad, Strict=False)
+    acc, rej = ctx.validate("LineBatcher_Trace", traces, constants=strict, label="LineBatcher_Trace sessions strict", shards=2)
+    for c, tr in zip(cases, traces):
+        call = c["session"]["calls"][c["call"]]
+        ctx.count(1, ("session", tr["kind"], call["e"], tuple(tr["w"]), tuple(sorted(tr["mode"].items())), c["call"]) if c["call"] >= 1 and tr["w"] else None)
+    if rej:
+        idx = [r[0] for r in rej]
+        acc2, rej2 = ctx.validate("LineBatcher_Trace", [traces[i] for i in idx], constants=loose, shards=1,
+                                  label="LineBatcher_Trace sessions property-level")
+        bad = {r[0]: r[1] for r in rej2}
+        for k, i in enumerate(idx):
+            tr, c = traces[i], cases[i]
+            call = c["session"]["calls"][c["call"]]
+            if k in bad:
+                if tr["kind"] == "pt":
+                    kind, what = _describe_pt(tr, bad[k])
+                else:
+                    kind, what = _describe(tr, bad[k])
+                eng = c["session"]["engines"][call["e"]]
+                ctx.violation({"bounds": b, "case": c, "pad": pad, "trace": _short(tr), "progress": bad[k]},
+                              "%s:history:%s" % ("pytorch" if tr["kind"] == "pt" else "ctc", kind),
+                              "%s; call %d of a session of %d calls on long-lived engines (engine %d: %s), widths %s mode %s" % (
+                                  what, c["call"] + 1, len(c["session"]["calls"]), call["e"], eng, tr["w"], tr["mode"]))
+            else:
+                ctx.model_drift("sessions: execution differs from the design (batch composition / placement / merge) but every line "
+                                "still gets its own result", 1, {"call": call, "engine": c["session"]["engines"][call["e"]]})
+    good = [i for i in range(len(traces)) if i not in {r[0] for r in rej} and traces[i]["kind"] == "pt" and traces[i]["res"]
+            and traces[i]["res"][0]["txt"]]
+    if good and "selftest_corrupted_pt_trace_rejected" not in ctx.notes:
+        def corrupt(tr):
+            tr["res"][0]["txt"][0] += 2048          # the first character of line 1 now belongs to the next alphabet
+            return tr
+        ctx.selftest_corrupt("LineBatcher_Trace", traces[good[len(good) // 2]], corrupt, constants=loose)
+        ctx.notes["selftest_corrupted_pt_trace_rejected"] = True
+
+
+def _describe_pt(tr, prog):
+    if tr["outcome"] != "ok":
+        return "outcome", "process_lines ended with %s" % tr["outcome"]
+    if prog < len(tr["res"]):
+        r = tr["res"][prog]
+        return "line-result", ("result at input position %d (width %d) is not the result of that image in the alphabet of the engine "
+                               "asked (alphabet %d, %d symbols): %d characters, codes (2048 * alphabet + symbol) %s, coords kind %d [%d, %d], "
+                               "%d frames" % (prog + 1, tr["w"][prog], tr["alpha"], tr["nsym"], r["tlen"], r["txt"][:8], r["cs"], r["lo"],
+                                              r["hi"], r["frames"]))
+    return "unfinished", "the result lists have the wrong length"
+
+
 def _pad_of_engine(ctx):
     eng = L.StubEngine(L._config_path(None), 1, "ctc")
     return int(eng.line_padding_px)
@@ -147,9 +272,10 @@ def judge(ctx, b, cases, traces, pad):
     good = [i for i in range(len(traces)) if i not in {r[0] for r in rej} and _nontrivial(traces[i])]
     if good:
         ctx.sample({"bounds": b["name"], "case": cases[good[len(good) // 2]], "trace": _short(traces[good[len(good) // 2]])}, limit=4)
-    if good and "selftest_corrupted_trace_rejected" not in ctx.notes:
+    if good and "selftest_corrupted_lb_trace_rejected" not in ctx.notes:
         cands = [i for i in good if traces[i]["res"] and traces[i]["res"][0]["truns"]]
         if cands:
+            ctx.notes["selftest_corrupted_lb_trace_rejected"] = True
             def corrupt(tr):
                 tr["res"][0]["truns"][0][2] += 1      # the first character of line 1 now claims to come from another image
                 return tr
@@ -202,9 +328,14 @@ def run(ctx):
                "real networks are not covered",
                "widths from a fixed set of 8 (12) values including 1, 31/32/33, the budget boundaries 448/481, 3841 and 8000; <= 3 (4) lines",
                "sparsification: posterior exactly 1e-4 (weight * 10^4 = sum) admits both outcomes (not decidable in floating point)",
-               "transformer mode: the window/merge clause is checked with texts whose overlaps are exact; the merge itself is C15's subject")
+               "transformer mode: the window/merge clause is checked with texts whose overlaps are exact; the merge itself is C15's subject",
+               "history: a fixed set of sessions plus a few sampled ones (3 - 11 calls on up to 7 long-lived engine objects per process, a failing "
+               "call in between, alphabets of 7 / 10 / 1300 symbols); histories are sampled by the driver, not enumerated by TLC - the trace "
+               "specification judges every call as if it were the first one")
     pad = _pad_of_engine(ctx)
     sharpness(ctx)
+    # sessions first: their processes are forked from a process in which no engine has been asked anything yet
+    judge_sessions(ctx, bounds(ctx.tier)[0], sessions(ctx, bounds(ctx.tier)[0], ctx.tier == "quick"), pad)
     for b in bounds(ctx.tier):
         design(ctx, b)
         cases = cases_of(ctx, b)
@@ -214,12 +345,16 @@ def run(ctx):
         judge_alias(ctx, b, acases, [L.run_case(c) for c in acases], pad)
     ctx.notes["explanation"] = ("TLC exhaustive on LineBatcher per bounds entry (invariants %s, properties Terminates/Progress); every "
                                 "width list of the same bounds run through the real process_lines with the provenance stub engine and "
-                                "validated by LineBatcher_Trace (Strict, then property-level)" % INVS)
+                                "validated by LineBatcher_Trace (Strict, then property-level); the same for every call of the sessions on "
+                                "long-lived engines (provenance stub engine and real PytorchEngineLineOCR objects with different alphabets)" % INVS)
     ctx.notes["line_padding_px_read_from_engine"] = pad
 
 
 def replay(ctx, case):
     L.setup(ctx.workdir)
     b = case["bounds"]
+    if case["case"].get("route") == "session":
+        judge_sessions(ctx, b, [case["case"]["session"]], case.get("pad", 32))
+        return
     tr = L.run_case(case["case"])
     judge(ctx, b, [case["case"]], [tr], case.get("pad", 32))
